@@ -1,0 +1,330 @@
+//go:build verif
+
+// Verification hooks: exported wrappers around unexported functions, used only
+// by the out-of-tree verification harness. Compiled only with `-tags verif`.
+
+package larking
+
+import (
+	"context"
+	"fmt"
+	"io"
+	"net/http"
+	"sort"
+	"strings"
+	"time"
+
+	"google.golang.org/genproto/googleapis/api/annotations"
+	"google.golang.org/grpc"
+	"google.golang.org/grpc/codes"
+	"google.golang.org/grpc/metadata"
+	"google.golang.org/protobuf/reflect/protoreflect"
+)
+
+func VerifEncodeGrpcMessage(s string) string { return encodeGrpcMessage(s) }
+
+func VerifCodeTables() (httpTable []int, wsTable []int) {
+	for _, v := range codeToHTTPStatus {
+		httpTable = append(httpTable, v)
+	}
+	for _, v := range codeToWSStatus {
+		wsTable = append(wsTable, int(v))
+	}
+	return
+}
+
+func VerifHTTPStatusCode(c uint32) int { return HTTPStatusCode(codes.Code(c)) }
+func VerifWSStatusCode(c uint32) int   { return int(WSStatusCode(codes.Code(c))) }
+
+func (m *Mux) VerifEncError(w http.ResponseWriter, r *http.Request, err error) {
+	m.encError(w, r, err)
+}
+
+func VerifDecodeTimeout(s string) (time.Duration, error) { return decodeTimeout(s) }
+func VerifTimeoutUnit(b byte) time.Duration               { return timeoutUnit(b) }
+func VerifEncodeBinHeader(b []byte) string                { return encodeBinHeader(b) }
+func VerifDecodeBinHeader(v string) (string, error)       { return decodeBinHeader(v) }
+func VerifIsReservedHeader(k string) bool                 { return isReservedHeader(k) }
+func VerifIsWhitelistedHeader(k string) bool              { return isWhitelistedHeader(k) }
+
+func VerifNewIncomingMD(h http.Header) metadata.MD {
+	_, md := newIncomingContext(context.Background(), h)
+	return md
+}
+func VerifSetOutgoingHeader(h http.Header, md metadata.MD) { setOutgoingHeader(h, md) }
+
+// Lexer.
+
+type VerifToken struct {
+	Typ uint16
+	Val string
+}
+
+func verifToks(l *lexer) []VerifToken {
+	out := make([]VerifToken, 0, l.len)
+	for _, t := range l.tokens() {
+		out = append(out, VerifToken{Typ: uint16(t.typ), Val: t.val})
+	}
+	return out
+}
+
+func VerifLexTemplate(s string) ([]VerifToken, error) {
+	l := &lexer{input: s}
+	err := lexTemplate(l)
+	return verifToks(l), err
+}
+
+func VerifLexPath(s string) ([]VerifToken, error) {
+	l := &lexer{input: s}
+	err := lexPath(l)
+	return verifToks(l), err
+}
+
+func VerifTokenNames() map[string]uint16 {
+	return map[string]uint16{
+		"error": uint16(tokenError), "slash": uint16(tokenSlash), "star": uint16(tokenStar),
+		"starstar": uint16(tokenStarStar), "varstart": uint16(tokenVariableStart),
+		"varend": uint16(tokenVariableEnd), "equal": uint16(tokenEqual), "ident": uint16(tokenIdent),
+		"literal": uint16(tokenLiteral), "dot": uint16(tokenDot), "verb": uint16(tokenVerb),
+		"path": uint16(tokenPath), "eof": uint16(tokenEOF),
+	}
+}
+
+func VerifTokenCap() int { var l lexer; return len(l.toks) }
+
+func VerifIsIdent(r rune) bool   { return isIdent(r) }
+func VerifIsLiteral(r rune) bool { return isLiteral(r) }
+func VerifIsPath(r rune) bool    { return isPath(r) }
+
+// Routing trie.
+
+type VerifTrie struct{ p *path }
+
+func NewVerifTrie() *VerifTrie { return &VerifTrie{p: newPath()} }
+
+func (t *VerifTrie) AddRule(rule *annotations.HttpRule, desc protoreflect.MethodDescriptor, name string) error {
+	return t.p.addRule(rule, desc, name)
+}
+
+type VerifParam struct {
+	Fields []protoreflect.FieldDescriptor
+	Val    protoreflect.Value
+}
+
+type VerifMethod struct {
+	Name    string
+	Desc    protoreflect.MethodDescriptor
+	Body    []protoreflect.FieldDescriptor
+	Resp    []protoreflect.FieldDescriptor
+	HasBody bool
+	NumVars int
+}
+
+func verifMethod(m *method) *VerifMethod {
+	if m == nil {
+		return nil
+	}
+	return &VerifMethod{Name: m.name, Desc: m.desc, Body: m.body, Resp: m.resp, HasBody: m.hasBody, NumVars: len(m.vars)}
+}
+
+func verifParams(ps params) []VerifParam {
+	out := make([]VerifParam, 0, len(ps))
+	for _, p := range ps {
+		out = append(out, VerifParam{Fields: p.fds, Val: p.val})
+	}
+	return out
+}
+
+func (t *VerifTrie) Match(route, verb string) (*VerifMethod, []VerifParam, error) {
+	m, ps, err := t.p.match(route, verb)
+	return verifMethod(m), verifParams(ps), err
+}
+
+func (t *VerifTrie) DelRule(name string) bool { return t.p.delRule(name) }
+func (t *VerifTrie) Clone() *VerifTrie        { return &VerifTrie{p: t.p.clone()} }
+func (t *VerifTrie) String() string           { return t.p.String() }
+
+// Fingerprint is a deterministic deep rendering of the trie, including the
+// order of the variables slice and the method bound to each verb.
+func (t *VerifTrie) Fingerprint() string { return fingerprintPath(t.p) }
+
+func fingerprintPath(p *path) string {
+	if p == nil {
+		return "nil"
+	}
+	var sb strings.Builder
+	sb.WriteString("{S[")
+	keys := make([]string, 0, len(p.segments))
+	for k := range p.segments {
+		keys = append(keys, k)
+	}
+	sort.Strings(keys)
+	for _, k := range keys {
+		fmt.Fprintf(&sb, "%q:%s,", k, fingerprintPath(p.segments[k]))
+	}
+	sb.WriteString("]V[")
+	for _, v := range p.variables {
+		fmt.Fprintf(&sb, "%q", v.name)
+		for _, tk := range v.toks {
+			fmt.Fprintf(&sb, "<%d:%q>", tk.typ, tk.val)
+		}
+		fmt.Fprintf(&sb, ":%s,", fingerprintPath(v.next))
+	}
+	sb.WriteString("]M[")
+	keys = keys[:0]
+	for k := range p.methods {
+		keys = append(keys, k)
+	}
+	sort.Strings(keys)
+	for _, k := range keys {
+		fmt.Fprintf(&sb, "%q:%s,", k, fingerprintMethod(p.methods[k]))
+	}
+	sb.WriteString("]A[")
+	if p.methodAll != nil {
+		sb.WriteString(fingerprintMethod(p.methodAll))
+	}
+	sb.WriteString("]}")
+	return sb.String()
+}
+
+func fingerprintMethod(m *method) string {
+	var sb strings.Builder
+	fmt.Fprintf(&sb, "%s|%s|%v|", m.name, m.desc.FullName(), m.hasBody)
+	fp := func(fds []protoreflect.FieldDescriptor) {
+		for _, fd := range fds {
+			fmt.Fprintf(&sb, "%s.", fd.FullName())
+		}
+	}
+	fp(m.body)
+	sb.WriteString("|")
+	fp(m.resp)
+	sb.WriteString("|")
+	for _, v := range m.vars {
+		fp(v)
+		sb.WriteString(";")
+	}
+	return sb.String()
+}
+
+func VerifParseParam(fds []protoreflect.FieldDescriptor, raw []byte) (protoreflect.Value, error) {
+	p, err := parseParam(fds, raw)
+	return p.val, err
+}
+
+func VerifFieldPath(fds protoreflect.FieldDescriptors, names ...string) []protoreflect.FieldDescriptor {
+	return fieldPath(fds, names...)
+}
+
+// Service-config selectors.
+
+type VerifSelector struct{ r ruleSelector }
+
+func (s *VerifSelector) SetRules(rules []*annotations.HttpRule) { s.r.setRules(rules) }
+func (s *VerifSelector) GetRules(name string) []*annotations.HttpRule {
+	return s.r.getRules(name)
+}
+
+// Negotiation.
+
+type VerifAcceptSpec struct {
+	Value string
+	Q     float64
+}
+
+func VerifParseAccept(values []string) []VerifAcceptSpec {
+	var out []VerifAcceptSpec
+	for _, s := range parseAccept(values) {
+		out = append(out, VerifAcceptSpec{Value: s.Value, Q: s.Q})
+	}
+	return out
+}
+func VerifNegotiateContentType(h http.Header, offers []string, dflt string) string {
+	return negotiateContentType(h, offers, dflt)
+}
+func VerifNegotiateContentEncoding(h http.Header, offers []string) string {
+	return negotiateContentEncoding(h, offers)
+}
+
+func (m *Mux) VerifOffers() (contentTypes, encodings []string) {
+	return append([]string(nil), m.opts.contentTypeOffers...), append([]string(nil), m.opts.encodingTypeOffers...)
+}
+
+// Codecs and limits.
+
+func VerifHTTPBodyCodec() StreamCodec { return codecHTTPBody{} }
+func VerifGrowcap(oldcap, wantcap int) int { return growcap(oldcap, wantcap) }
+
+func VerifReadAll(limit int, b []byte, r io.Reader) ([]byte, error) {
+	o := &muxOptions{maxReceiveMessageSize: limit}
+	return o.readAll(b, r)
+}
+
+func VerifDefaultLimits() (recv, send int) {
+	return defaultServerMaxReceiveMessageSize, defaultServerMaxSendMessageSize
+}
+
+// Registration.
+
+func (m *Mux) VerifRegisterService(sd *grpc.ServiceDesc, ss interface{}) error {
+	return m.registerService(sd, ss)
+}
+
+// VerifState is an opaque handle on one published routing state.
+type VerifState struct{ s *state }
+
+func (m *Mux) VerifSnapshot() *VerifState { return &VerifState{s: m.loadState()} }
+
+func (v *VerifState) IsNil() bool { return v.s == nil }
+
+// Same reports whether two handles refer to the same published state value.
+func (v *VerifState) Same(o *VerifState) bool { return v.s == o.s }
+
+// Fingerprint renders everything reachable from the state: trie, handler
+// lists (by method and handler identity) and connection table.
+func (v *VerifState) Fingerprint() string {
+	if v.s == nil {
+		return "nil"
+	}
+	var sb strings.Builder
+	sb.WriteString(fingerprintPath(v.s.path))
+	sb.WriteString("H[")
+	keys := make([]string, 0, len(v.s.handlers))
+	for k := range v.s.handlers {
+		keys = append(keys, k)
+	}
+	sort.Strings(keys)
+	for _, k := range keys {
+		fmt.Fprintf(&sb, "%q:", k)
+		for _, h := range v.s.handlers[k] {
+			fmt.Fprintf(&sb, "%p/%s,", h, h.method)
+		}
+		sb.WriteString(";")
+	}
+	sb.WriteString("]C[")
+	var cs []string
+	for cc, cl := range v.s.conns {
+		var hs []string
+		for _, h := range cl.handlers {
+			hs = append(hs, fmt.Sprintf("%p/%s", h, h.method))
+		}
+		cs = append(cs, fmt.Sprintf("%p:%x:%s", cc, cl.fdHash, strings.Join(hs, ",")))
+	}
+	sort.Strings(cs)
+	sb.WriteString(strings.Join(cs, ";"))
+	sb.WriteString("]")
+	return sb.String()
+}
+
+// Match routes against this state value (not the mux's current one).
+func (v *VerifState) Match(route, verb string) (*VerifMethod, []VerifParam, error) {
+	m, ps, err := v.s.match(route, verb)
+	return verifMethod(m), verifParams(ps), err
+}
+
+// HandlerCount is the number of handlers registered for a method.
+func (v *VerifState) HandlerCount(method string) int {
+	if v.s == nil {
+		return 0
+	}
+	return len(v.s.handlers[method])
+}
